@@ -41,16 +41,15 @@ PROP = dict(
                  "refresh ticker fires 3..4 s after the previous firing", "bounded: 2-3 nodes, <=6 membership events, D<=2",
                  "addresses are http://host:port and ids 8 hex digits (no comma)"],
     stages=[
-        _walk("pair", "pair_q", "pair_t", {"quick": 25, "thorough": 150}),
+        _walk("pair", "pair_q", "pair_t", {"quick": 25, "thorough": 100}),
         dict(kind="tlc", name="timed", module="Peers", cfg={"quick": "MC_Peers_pair_q_timed.cfg", "thorough": "MC_Peers_pair_mc_timed.cfg"}, workers=8),
         dict(kind="walk", name="codec", module="PeersCodec", pkg="internal/peer", test="TestVerifC18Codec", harness=_H,
              cfg={"quick": "MC_PeersCodec_q.cfg", "thorough": "MC_PeersCodec_t.cfg"}, budget={"quick": 10, "thorough": 60}, dump_workers=1),
-        _walk("restart", "restart", "restart", {"thorough": 150}, tiers=("thorough",)),
-        _walk("trio", "trio", "trio", {"thorough": 150}, tiers=("thorough",)),
+        _walk("restart", "restart", "restart", {"thorough": 60}, tiers=("thorough",)),
+        _walk("trio", "trio", "trio", {"thorough": 100}, tiers=("thorough",)),
         dict(kind="tlc", name="timed-restart", module="Peers", cfg="MC_Peers_restart_mc_timed.cfg", workers=8, tiers=("thorough",)),
         dict(kind="tlc", name="timed-trio", module="Peers", cfg="MC_Peers_trio_mc_timed.cfg", workers=8, tiers=("thorough",)),
         dict(kind="tlc", name="live-pair", module="Peers", cfg="MC_Peers_pair_mc_live.cfg", workers=8, tiers=("thorough",)),
-        dict(kind="tlc", name="live-restart", module="Peers", cfg="MC_Peers_restart_mc_live.cfg", workers=8, tiers=("thorough",)),
         dict(kind="tlc", name="live-trio", module="Peers", cfg="MC_Peers_trio_live.cfg", workers=8, tiers=("thorough",)),
     ],
 )
